@@ -194,6 +194,10 @@ def _dumpstruct(
 
     out = "\n".join(out)
 
+    if not color:
+        # Without a palette the hex dump has no colour codes at all (an empty palette still resets the colour)
+        palette = None
+
     if output == "print":
         print()
         hexdump(data, palette, offset=offset)
